@@ -247,9 +247,10 @@ pub fn leaf_value(l: &LeafX) -> PResult<AvpValue> {
         LeafX::Oct(b) => OctetString::new(b.clone()).into(),
         LeafX::Time(z) => Time::new(
             chrono::Utc
-                // a sub-second part for every odd second: the wire carries whole seconds, the second of an instant is
-                // the floor of its timestamp (chrono's timestamp()), so the fraction must never change the outcome
-                .timestamp_opt(*z, if z.rem_euclid(2) == 1 { 999_999_999 } else { 0 })
+                // a tiny sub-second part (1 ns) for every odd second: the wire carries whole seconds; whether a library floors
+                // or rounds to nearest, one nanosecond past the second is that second - only truncation toward zero (wrong
+                // for instants before 1970) or rounding up would make it another one
+                .timestamp_opt(*z, if z.rem_euclid(2) == 1 { 1 } else { 0 })
                 .single()
                 .ok_or_else(|| "time not representable".to_string())?,
         )
